@@ -15,6 +15,10 @@ fn main() {
         eprintln!("usage: replay <harness> <values>");
         std::process::exit(2);
     }
+    if args[1] == "--search" {
+        search(&args[2]);
+        return;
+    }
     let name = &args[1];
     let values: Vec<Vec<u8>> = if args[2].is_empty() {
         vec![]
@@ -55,5 +59,68 @@ fn main() {
                 println!("REPLAY FAILED <non-string panic>");
             }
         }
+    }
+}
+
+/// Fallback when Kani cannot produce concrete values (trace generation out of memory): the solver
+/// has already reported the harness as FAILED; look for a concrete witness natively by a bounded
+/// depth-first enumeration of small candidate values for every `any()` call (assumptions prune).
+#[cfg(not(kani))]
+fn search(name: &str) {
+    let Some((_, f)) = pasfmt_verif_h::registry::all().into_iter().find(|(n, _)| *n == name) else {
+        println!("REPLAY UNKNOWN harness {name}");
+        std::process::exit(2);
+    };
+    std::panic::set_hook(Box::new(|_| {}));
+    let mut choices: Vec<usize> = Vec::new();
+    let mut runs = 0u64;
+    loop {
+        runs += 1;
+        if runs > 2_000_000 {
+            println!("SEARCH EXHAUSTED-BUDGET runs={runs}");
+            return;
+        }
+        shim::search_begin(choices.clone());
+        let r = std::panic::catch_unwind(f);
+        let st = shim::search_end();
+        let failed = match &r {
+            Ok(()) => None,
+            Err(e) => {
+                if e.downcast_ref::<shim::AssumeFailed>().is_some() || e.downcast_ref::<shim::ReplayMismatch>().is_some() {
+                    None
+                } else if let Some(s) = e.downcast_ref::<String>() {
+                    Some(s.replace('\n', " "))
+                } else if let Some(s) = e.downcast_ref::<&str>() {
+                    Some(s.replace('\n', " "))
+                } else {
+                    Some("<non-string panic>".to_string())
+                }
+            }
+        };
+        if let Some(msg) = failed {
+            let vals: Vec<String> = st.taken.iter().map(|v| v.iter().map(|b| b.to_string()).collect::<Vec<_>>().join(",")).collect();
+            println!("SEARCH FOUND runs={runs} values={}", vals.join(";"));
+            println!("REPLAY FAILED {msg}");
+            return;
+        }
+        // advance the odometer over the choice points actually visited in this run
+        let mut c = st.choices[..st.next.min(st.choices.len())].to_vec();
+        let lim = st.limits;
+        loop {
+            match c.pop() {
+                None => {
+                    println!("SEARCH EXHAUSTED runs={runs}");
+                    return;
+                }
+                Some(v) => {
+                    let k = c.len();
+                    if v + 1 < lim[k] {
+                        c.push(v + 1);
+                        break;
+                    }
+                }
+            }
+        }
+        choices = c;
     }
 }
